@@ -8,6 +8,8 @@ DELEGATE.pubsub    : both configurations of subscribe()/publish() reach the fabr
                      agreement of the payload tuples).  _subscribe hands the object's *own queue* to the fabric.
 KEYDEP.subscribed  : a guard that may skip the run-time subscription must depend on this object's queue, by identity
                      (a guard on the signal name alone skips every object after the first subscriber).
+ATOMIC.subscribe   : the fabric's registry check-then-update is one critical section (active objects subscribe from their own
+                     threads, so "regardless of which other objects already subscribed" includes objects subscribing right now).
 SIGSET.reflection  : starting an un-instrumented object sends no REFLECTION query (shared with C18).
 Not decided: arrival at the chart under all schedules.
 """
@@ -201,6 +203,11 @@ def check(run, model, tier):
                      '' if ok else 'start_at sends a REFLECTION query to the start state without knowing that it is spy-wrapped: an un-instrumented '
                      'object fails to start', node=n.ast, obligation=True)
     run.inst('SIGSET.reflection', sa_, 'start_at scanned for REFLECTION sends', True, nontrivial=False)
+    # ---- concurrent subscriptions of several active objects (each subscribes from its own thread)
+    from sa import fabric
+    from props.c06 import atomic_subscribe
+    run.rule('ATOMIC.subscribe', 'the fabric decides "already registered?" and updates the registry in one critical section')
+    atomic_subscribe(run, model, fabric.wiring(model))
     run.assume('the fabric side of delivery is C06; queue placement is C09')
 
 
